@@ -180,6 +180,15 @@ def random_cases(rng, n):
 
 # ------------------------------------------------------------------------------------------------ the check
 
+def pretty(x):
+    """monitor integers back to block numbers: values near BIG = 2*10^9 stand for 2^64-1-k"""
+    if isinstance(x, dict):
+        return {k: pretty(v) for k, v in x.items()}
+    if isinstance(x, int) and not isinstance(x, bool) and x > 10 ** 9:
+        return "2^64-1-%d" % (2000000000 - x) if x <= 2000000000 else "2^64-1+%d" % (x - 2000000000)
+    return x
+
+
 def nontrivial(ev):
     """the real code really cut something / really found a gap"""
     if ev["ev"] == "gap":
@@ -251,7 +260,7 @@ def body():
             raise V.Infra("monitor did not consume the trace:\n" + info.get("tail", ""))
         for v in info["violations"]:
             i = v["l"] - 2
-            res.add_violation("%s in %s case %d: %s | recorded: %s" % (v["inv"], cases[i]["k"], i, json.dumps(v["info"]), json.dumps(evs[v["l"] - 1])[:400]),
+            res.add_violation("%s in %s case %d: %s | recorded: %s" % (v["inv"], cases[i]["k"], i, json.dumps(pretty(v["info"])), json.dumps(evs[v["l"] - 1])[:400]),
                               dict(behaviour=cases[i], violation=v, recorded=evs[v["l"] - 1]))
         # drift between the implementation-shaped spec and the code (reported, never a verdict)
         ndrift, drift_sample = 0, None
@@ -260,9 +269,13 @@ def body():
                 if e is not None and e != observed(evs[i + 1]):
                     ndrift += 1
                     drift_sample = drift_sample or dict(case=cases[i], model=e, code=observed(evs[i + 1]))
+        if drift is not None:
+            V.log("[drift] outcomes differing from CertCut.tla's own prediction (pure shifts only): %d of %d" % (ndrift, sum(1 for e in drift if e is not None)))
         # binding self-test: corrupt recorded outcomes -> the monitor must object to each
-        st = "skipped (replay)"
-        if rb is None:
+        # (on a tree whose outcomes are already rejected the monitor has shown that it objects; the lines the self-test
+        #  corrupts may not even exist there)
+        st = "skipped (replay)" if rb is not None else "skipped (the monitor already rejected real outcomes)"
+        if rb is None and not info["violations"]:
             muts, want = [evs[0]], []
             e = next((x for x in evs if x["ev"] == "size" and x["ok"] and x["rto"] != x["to"] and x["rbr"]), None)
             if e is None:
